@@ -485,10 +485,18 @@ func checkCase(c sqlCase) (o pbt.Outcome) {
 			for i := range keep {
 				keep[i] = true
 			}
-			for i := range keep {
-				keep[i] = false
-				if rr, _ := rejected(apply(target, c.Edits, keep)); !rr {
-					keep[i] = true
+			for changed := true; changed; {
+				changed = false
+				for i := range keep {
+					if !keep[i] {
+						continue
+					}
+					keep[i] = false
+					if rr, _ := rejected(apply(target, c.Edits, keep)); !rr {
+						keep[i] = true
+					} else {
+						changed = true
+					}
 				}
 			}
 			var culprits []int
@@ -543,14 +551,21 @@ func checkCase(c sqlCase) (o pbt.Outcome) {
 			break
 		}
 		// one-minimal subset of the enabled edits that still slips through
+		// (passes are repeated until nothing more can be dropped: an edit that was needed while
+		// another, later dropped, edit was still enabled may have become unnecessary)
 		keep := append([]bool(nil), on...)
-		for i := range keep {
-			if !keep[i] {
-				continue
-			}
-			keep[i] = false
-			if rr, _ := rejected(apply(target, c.Edits, keep)); rr {
-				keep[i] = true
+		for changed := true; changed; {
+			changed = false
+			for i := range keep {
+				if !keep[i] {
+					continue
+				}
+				keep[i] = false
+				if rr, _ := rejected(apply(target, c.Edits, keep)); rr {
+					keep[i] = true
+				} else {
+					changed = true
+				}
 			}
 		}
 		any := false
